@@ -656,6 +656,22 @@ def catalogue():
     def uu(cs, lab):
         return (cs.unit(lab + ".u0"), cs.unit(lab + ".u1"))
 
+    # ---- process-wide settings no computation may depend on
+    def printopts(a, o):
+        import pandas as pd
+        if o["how"] == "narrow":
+            np.set_printoptions(precision=2, threshold=4, linewidth=30,
+                                suppress=True)
+            pd.set_option("display.precision", 2)
+            pd.set_option("display.max_rows", 4)
+        else:
+            np.set_printoptions(precision=8, threshold=1000, linewidth=75,
+                                suppress=False)
+            pd.reset_option("display.precision")
+            pd.reset_option("display.max_rows")
+        return None
+    add("env.print options", [], printopts,
+        lambda cs: {"how": cs.choice("how", ["narrow", "default"])}, weight=2)
     # ---- metrics
     add("metrics.crps", [OBS, ENS], lambda a, o: metrics.crps(a.obs, a.ens))
     add("metrics.pit", [OBS, ENS],
